@@ -36,7 +36,8 @@ class Abandon(BaseException):
 class Config:
     def __init__(self, alphabet: Sequence[tuple], closing: Sequence[str] = ('gates', 'play', 'resume'),
                  early_gates: bool = True, gate_cost: str = 'J', op_cost: str = 'K', resume_default: tuple = ('dflt',),
-                 horizon: int = 3000, ops_when: str = 'live', max_closing: int = 40) -> None:
+                 horizon: int = 3000, ops_when: str = 'live', max_closing: int = 40,
+                 slot_bound: Optional[int] = None) -> None:
         self.alphabet = tuple(alphabet)
         self.closing = tuple(closing)
         self.early_gates = early_gates
@@ -47,6 +48,8 @@ class Config:
         self.ops_when = ops_when
         self.max_closing = max_closing
         self.cost_of: Any = None
+        # closure search: at most this many environment events between two loop callbacks (None: no such limit)
+        self.slot_bound = slot_bound
 
 
 class ScriptedListener(plumpy.ProcessListener):
@@ -180,6 +183,7 @@ class World:
         self.others: List[Any] = []
         self.n_entering = 0
         self.pre_pause_status: Any = None
+        self.ops_in_slot = 0
 
     # ---- hooks used by generated programs -------------------------------------------------
     def attach(self, proc: Any) -> None:
@@ -246,7 +250,7 @@ class World:
             elif op == 'resume':
                 ret = proc.resume(*args)
             elif op == 'fail':
-                exc = FailError(f'fail-{len(self.calls)}')
+                exc = FailError('fail' if self.cfg.slot_bound is not None else f'fail-{len(self.calls)}')
                 rec['exc'] = exc
                 ret = proc.fail(exc, None)
             elif op == 'cancel':
@@ -309,6 +313,8 @@ class World:
         elif post:
             opts.append((('end',), '', self._end))
         if not opts:
+            return opts
+        if self.cfg.slot_bound is not None and self.ops_in_slot >= self.cfg.slot_bound:
             return opts
         if live or post:
             for op in self.cfg.alphabet:
@@ -375,9 +381,14 @@ class World:
         opts = self.options()
         if not opts:
             return False
+        keys = getattr(self.chooser, 'keys', None)
+        if keys is not None:
+            from . import statekey
+            keys.append(statekey.world_key(self))
         c = self.chooser.choose([(label, cost) for label, cost, _ in opts])
         self.n_choice += 1
         self.result.transitions += 1
+        self.ops_in_slot = 0 if opts[c][0] == ('tick',) else self.ops_in_slot + 1
         opts[c][2]()
         if self.ended:
             return False
